@@ -19,11 +19,11 @@ CLASSES = ['StorySend', 'StoryAppend', 'StoryDelete', 'StoryInsert', 'StoryMove'
 
 DUR = ['0', '1', '2.5', '3', '10', '12.25', '0.125', '7.75', '60', '31', ' 3 ', '+2', '1e1', '25e-1', '0.5E1', '1.50', '007', '.5', '5.', '\t4\n', '0.1', '0.2', '0.3337', '20.0004', '0.04', '7.7', '33.333333']
 CR = '@@CR@@'        # becomes the character reference &#13; where the caller serialises the message (hist_run)
-TEXTS = ['line one' + CR + 'line two', 'cafe\u0301 (decomposed)', '\u2126\u212b',  'plain text', ' padded ', '(note)', '<tech>', '(half', 'half>', 'Ünïcödé ☃ 𝄞', 'a & b < c > d "q" \'s\'',
+TEXTS = ['del\x7f nel\x85 pu2\x92 (C1 controls)', 'line one' + CR + 'line two', 'cafe\u0301 (decomposed)', '\u2126\u212b',  'plain text', ' padded ', '(note)', '<tech>', '(half', 'half>', 'Ünïcödé ☃ 𝄞', 'a & b < c > d "q" \'s\'',
          '', None, '\t', 'line1\nline2', '  (  spaced note )  ', 'x' * 40]
 
 
-SPECIAL_IDS = ['STORY%20ONE', 'SHARE 100%', '%d', 'e\u0301', '\u212b', "O'NEILL", 'say "x"', 'a]b', '[1]', 'a=b', '*', '.', '..', 'a/b', '@id', '{ns}x', 'a b', "x'y\"z", '-', 'None', '%s', '{0}', '&amp;', '<x>', 'é', '𝄞']
+SPECIAL_IDS = ['L' * 128 + 'A', 'L' * 128 + 'B', 'STORY%20ONE', 'SHARE 100%', '%d', 'e\u0301', '\u212b', "O'NEILL", 'say "x"', 'a]b', '[1]', 'a=b', '*', '.', '..', 'a/b', '@id', '{ns}x', 'a b', "x'y\"z", '-', 'None', '%s', '{0}', '&amp;', '<x>', 'é', '𝄞']
 
 
 class Gen:
@@ -124,6 +124,10 @@ class Gen:
         doc = B.ro_doc(stories, pattern=r.choice(B.PATTERNS), message_id=r.choice(['1', '1', '1', '0', '007', '4294967296']) if self.odd_message_ids else '1',
                        ed_start=r.choice([None, None, '2021-03-04T09:00:00', '2020-02-29T23:59:30', '\n      2021-03-04T09:00:00\n    ', '2021-03-04 09:00:00.5', ' 2021-03-04T09:00:00Z ']))
         # the running order's own envelope varies like any other (roCreate first, fields missing, extras)
+        if r.random() < 0.3:
+            # a standard MOS header field the library does not use: the running order's own idea of its duration
+            rc = TJ.find(doc, 'roCreate')
+            rc[4].insert(min(2, len(rc[4])), E('roEdDur', text=r.choice(['00:10:00', '00:00:00', '1:02:03', 'junk'])))
         return vary_envelope(r, doc)
 
 
